@@ -63,6 +63,22 @@ pub fn run(case: &Value) -> Value {
         }
         "chardata" => chardata(case),
         "create" => create(case),
+        "order" => {
+            // kernel-level replay of one DocumentOrder step through the verif hook
+            let k = case["k"].as_u64().unwrap_or(1) as usize;
+            let mover = case["mover"].as_u64().unwrap_or(0) as usize;
+            let anchor_id = match case["anchor"].as_u64() { Some(a) => a as usize + 1, None => 9999 };
+            let mut o = xml_info::verif_hooks::Order::new(k, 1);
+            let before = o.keys();
+            let r = match case["what"].as_str().unwrap_or("") {
+                "set_order_after" => json!(o.insert_after(anchor_id, mover)),
+                "set_order_before" => json!(o.insert_before(anchor_id, mover)),
+                "clear_order" => json!(o.remove(mover + 1)),
+                "init_order" => json!(o.push(mover).0),
+                _ => json!("unknown"),
+            };
+            json!({"before": before, "result": r, "keys": o.keys()})
+        }
         "attr_value" => {
             use xml_dom::{Attr, Document, Element};
             match xml_dom::XmlDocument::from_raw(input) {
